@@ -115,4 +115,30 @@ PROPS = {
         quick=dict(runs=400, budget_s=35, det_runs=2), thorough=dict(runs=8000, budget_s=1800, det_runs=6),
         must_probes=dict(quick=["fine_grained_runs", "runs_reaching_L1", "long_reader_spans"], thorough=["fine_grained_runs", "runs_reaching_L2", "long_reader_spans"]),
     ),
+    "C13": dict(
+        pkg="comp", level="exploration", eval_is_oracle=True,
+        rule="one run = a real WaterMark (real consumer goroutine as a simulated task) driven by 1-4 caller tasks with generated "
+             "Begin/Done/WaitForMark/cancel sequences (repeated indices, out-of-order completion, Done without Begin before anything "
+             "else, indices at or below the current mark, bursts of more marks than the channel buffer with the consumer starved, "
+             "some begins deliberately left unfinished) under one seeded schedule; the scheduler evaluates the counting model at "
+             "EVERY scheduling step (monotone; not at/after an unfinished index), waits that must complete are never cancelled, "
+             "the others are cancelled at drawn moments, catch-up is required at quiescence (exact, via deadlock detection); "
+             "evaluations = scheduling steps at which the invariant was evaluated; distinct_nontrivial = distinct event-log hashes",
+        quick=dict(runs=40000, budget_s=30), thorough=dict(runs=3000000, budget_s=900, det_runs=64),
+        must_probes=dict(quick=["more_marks_than_buffer", "done_without_begin", "out_of_order_done", "wait_uncancelled_ok", "wait_cancelled", "begin_at_current_mark", "left_unfinished", "late_index_pair"],
+                         thorough=["more_marks_than_buffer", "done_without_begin", "out_of_order_done", "wait_uncancelled_ok", "wait_cancelled", "begin_at_current_mark", "left_unfinished", "late_index_pair"]),
+        components={"pkg/watermark": "real code (consumer goroutine simulated as a task)", "callers": "generated harness tasks",
+                    "goroutine scheduling, select choice": "simulated (seeded)", "context": "real context package inside the synctest bubble"},
+    ),
+    "C17": dict(
+        pkg="comp", level="exploration", eval_is_oracle=True,
+        rule="one run = a real SkipList created with maxLevel 1-12 and p in {0.01,0.25,0.5,0.9,0.99} whose tower-height PRNG is seeded "
+             "from the simulated clock (a drawn instant), then 1-200 generated Set/Delete/Get/LowerBound/Scan/All/Size/Reset operations "
+             "over versioned adversarial keys, every result compared with a slice kept sorted by (key ascending, version descending); "
+             "single task, no faults apply (the only nondeterminism of this property is the tower-height randomness); "
+             "evaluations = operations compared; distinct_nontrivial = distinct (schedule, clock seed, shape) hashes",
+        quick=dict(runs=60000, budget_s=20), thorough=dict(runs=5000000, budget_s=600, det_runs=64),
+        must_probes=dict(quick=["overwrite_existing_versioned_key", "entries_at_end"], thorough=["overwrite_existing_versioned_key", "entries_at_end"]),
+        components={"pkg/skiplist, types.CompareKeys": "real code", "clock (PRNG seed)": "synctest fake clock set from the run seed"},
+    ),
 }
